@@ -80,7 +80,7 @@ def run_plan(prop, tier, plan, replay=None):
         "traces_validated_against_impl": stats["cases"],
         "samples": samples,
         "evaluations": stats["cases"],
-        "distinct_nontrivial": stats["nontrivial"],
+        "distinct_nontrivial": sum(1 for c in cases if plan.get("nontrivial", rc.nontrivial)(c)),
         "rule": "cases = TLC behaviours of Exec.tla (inputs grown by AddRow, pipelines by Step), de-duplicated by "
                 "(inputs, steps); non-trivial = some input has rows and the final reference result has rows",
         "tlc_runs": tr.runs,
@@ -96,7 +96,9 @@ def run_plan(prop, tier, plan, replay=None):
 
 def default_judge(prop, vd, cases, plan, stats):
     rc.judge_all(prop, vd, cases, plan.get("backends", relreplay.BACKENDS), stats=stats,
-                 differential=plan.get("differential"), allow_raise=plan.get("allow_raise", ("polars", "polars_lazy")))
+                 differential=plan.get("differential"), allow_raise=plan.get("allow_raise", ("polars", "polars_lazy")),
+                 opts=plan.get("opts"), accept_matters=plan.get("accept_matters", True),
+                 relevant_ops=plan.get("relevant_ops"))
 
 
 def do_replay(prop, vd, plan, path):
@@ -134,8 +136,121 @@ PLAN_C01 = {
     ],
     "sim": dict(what="random pipelines of 3 steps over 2 tables of <=3 rows", num=(1500, 12000), rows=3, steps=3, **SIMT),
     "backends": ("pandas", "sqlite"),
-    "differential": ("pandas", "sqlite"),
+    "differential": {"pandas": "sqlite", "sqlite": "pandas"},
     "allow_raise": (),
+}
+
+
+def has_op(case, ops):
+    return any(st[0] in ops for st, h in zip(case["prog"], case["hist"]) if h["ok"])
+
+
+def nt_rows(case, n=2):
+    return any(len(t["rows"]) >= n for t in case["inp"].values())
+
+
+PLAN_C03 = {
+    "mc": [dict(what="laws, one table, <=2 rows, every unary step", fams=UNARY, rows=2, steps=1, level=1, **T1)],
+    "emit": [dict(what="all 1-step pipelines over all tables with <=1 row", fams=UNARY, rows=1, steps=1, level=1, **T1)],
+    "sim": dict(what="random pipelines of 3 steps over 2 tables of <=3 rows", num=(1500, 12000), rows=3, steps=3, **SIMT),
+    "backends": ("pandas", "polars", "polars_lazy"),
+    "differential": {"polars": "pandas", "polars_lazy": "pandas", "pandas": "polars"},
+    "assumptions": ["a raising Polars executor is allowed by the property; counted in outcomes as polars:raised_allowed"],
+}
+
+PLAN_C02 = {
+    "mc": [dict(what="laws, two tables, <=1 row, join/concat", fams=["stack", "binary"], rows=1, steps=2, level=1, **T12)],
+    "emit": [dict(what="all 1-step pipelines over all tables with <=1 row", fams=UNARY, rows=1, steps=1, level=1, **T1)],
+    "sim": dict(what="random pipelines of 3 steps over 2 tables of <=3 rows", num=(1500, 12000), rows=3, steps=3, **SIMT),
+    "backends": ("pandas", "pg"),
+    "differential": {"pandas": "pg", "pg": "pandas"},
+    "allow_raise": (),
+    "assumptions": ["NO PostgreSQL engine exists in the sandbox: the SQL text produced by PostgreSQLModel.to_sql is executed on "
+                    "SQLite 3.40, which accepts the generated fragment verbatim (double-quoted identifiers, WITH, window "
+                    "functions, native RIGHT/FULL JOIN, COALESCE, CASE); engine-level differences between PostgreSQL and "
+                    "SQLite are outside what this check can see"],
+}
+
+PLAN_C08 = {
+    "mc": [
+        dict(what="DeclaredCols, one table, <=2 rows, every unary step", fams=UNARY, rows=2, steps=1, level=1, **T1),
+        dict(what="DeclaredCols, two tables, <=1 row, join/concat", fams=["stack", "binary"], rows=1, steps=2, level=1, **T12),
+    ],
+    "emit": [dict(what="all 1-step pipelines over all tables with <=1 row", fams=UNARY, rows=1, steps=1, level=1, **T1)],
+    "sim": dict(what="random pipelines of 3 steps over 2 tables of <=3 rows", num=(1500, 12000), rows=3, steps=3, **SIMT),
+    "backends": ("pandas", "sqlite", "pg", "polars"),
+    "opts": {"values": False, "col_order": True},
+    "allow_raise": ("pandas", "sqlite", "pg", "polars"),
+    "assumptions": ["only the column set (and the column order after select_columns) is compared; a backend that raises "
+                    "returns no table and is not judged by this property",
+                    "PostgreSQL dialect SQL is executed on SQLite (proxy)"],
+}
+
+AGG = ["project", "wextend", "extend", "select_rows", "cols"]
+PLAN_C09 = {
+    "mc": [
+        dict(what="laws (ProjectCardinality, WindowKeepsRows in StepLaw), one table, <=2 rows", fams=["project", "wextend"],
+             rows=2, steps=1, level=1, **T1),
+        dict(what="laws, one table, <=3 rows, project/windowed extend", fams=["project", "wextend"], rows=3, steps=1, level=1,
+             tier=("thorough",), **T1),
+        dict(what="laws, project after project / extend (2 steps), <=1 row", fams=["project", "extend"],
+             rows=1, steps=2, level=1, **T1),
+    ],
+    "emit": [
+        dict(what="every project / windowed extend over all tables with <=2 rows (one in 40 replayed)",
+             fams=["project", "wextend"], rows=2, steps=1, level=1, one_in=40, **T1),
+    ],
+    "sim": dict(what="random pipelines around project and windowed extend", fams=AGG, num=(1200, 12000), rows=3, steps=3, **SIMT),
+    "backends": ("pandas", "sqlite", "polars"),
+    "nontrivial": lambda c: has_op(c, ("project", "wextend")) and nt_rows(c, 2),
+    "relevant_ops": ("project", "wextend"),
+    "limit": (6000, 80000),
+}
+
+JOINF = ["stack", "binary", "extend", "select_rows", "cols"]
+PLAN_C16 = {
+    "mc": [
+        dict(what="join laws (row counts, null keys never match, coalesce), two tables, <=2 rows", fams=["stack", "binary"],
+             rows=2, steps=2, level=1, tabcols="MCJ_TabCols", colvals="MCJ_ColVals"),
+    ],
+    "emit": [
+        dict(what="every join type x key spec over all table pairs with <=1 row (one in 5 replayed)",
+             fams=["stack", "binary"], rows=1, steps=2, level=2, one_in=5, **T12),
+    ],
+    "sim": dict(what="random pipelines around natural_join", fams=JOINF, num=(1500, 12000), rows=3, steps=3, **SIMT),
+    "backends": ("pandas", "sqlite", "pg", "polars"),
+    "nontrivial": lambda c: has_op(c, ("join",)) and all(len(t["rows"]) >= 1 for t in c["inp"].values()),
+    "relevant_ops": ("join",),
+}
+
+WINF = ["wextend", "extend", "select_rows", "cols", "order"]
+PLAN_C27 = {
+    "mc": [
+        dict(what="window laws, one table, <=2 rows", fams=["wextend"], rows=2, steps=1, level=1, **T1),
+        dict(what="window laws, one table, <=3 rows", fams=["wextend"], rows=3, steps=1, level=1, tier=("thorough",), **T1),
+    ],
+    "emit": [dict(what="every windowed extend over all tables with <=2 rows (one in 30 replayed)", fams=["wextend"],
+                  rows=2, steps=1, level=1, one_in=30, **T1)],
+    "sim": dict(what="random pipelines around windowed extend", fams=WINF, num=(1500, 12000), rows=4, steps=2, **SIMT),
+    "backends": ("pandas", "sqlite", "polars"),
+    "nontrivial": lambda c: has_op(c, ("wextend",)) and nt_rows(c, 2),
+    "relevant_ops": ("wextend",),
+}
+
+PLAN_C18 = {
+    "mc": [
+        dict(what="PermLaw and OrderSorted/LimitIsPrefix (StepLaw), one table, <=2 rows", fams=UNARY, rows=2, steps=1, level=1, **T1),
+        dict(what="PermLaw, two tables, <=1 row, join/concat", fams=["stack", "binary"], rows=1, steps=2, level=1, **T12),
+    ],
+    "emit": [dict(what="every order_rows over all tables with <=2 rows", fams=["order"], rows=2, steps=1, level=1, **T1)],
+    "sim": dict(what="random pipelines of 3 steps over 2 tables of <=3 rows", num=(700, 6000), rows=3, steps=3, **SIMT),
+    "backends": ("pandas", "sqlite", "polars"),
+    "opts": {"variants": [None, "perm", "perm_keepidx", "dupidx", "stridx"]},
+    "nontrivial": lambda c: nt_rows(c, 2),
+    "limit": (3000, 30000),
+    "assumptions": ["inputs are evaluated as given, row-permuted, and (Pandas) with a shuffled integer index, duplicate "
+                    "index labels and a text index; every variant must give the reference bag, and the reference "
+                    "sequence directly after a total order_rows"],
 }
 
 
@@ -143,6 +258,19 @@ def check_C01(tier, replay=None):
     return run_plan("C01", tier, PLAN_C01, replay)
 
 
+def mk(prop, plan):
+    def f(tier, replay=None):
+        return run_plan(prop, tier, plan, replay)
+    return f
+
+
 CHECKS = {
     "C01": check_C01,
+    "C02": mk("C02", PLAN_C02),
+    "C03": mk("C03", PLAN_C03),
+    "C08": mk("C08", PLAN_C08),
+    "C09": mk("C09", PLAN_C09),
+    "C16": mk("C16", PLAN_C16),
+    "C18": mk("C18", PLAN_C18),
+    "C27": mk("C27", PLAN_C27),
 }
